@@ -5,7 +5,10 @@ proof:          lean/MPilot/Props/C02.lean  (the run loop computes the denotatio
 correspondence: random well-typed EEMS models over all built-in commands on CSV tables (int/float columns, missing cells), run with the REAL bodies:
                 every execute call is recorded with its actual input arrays and replayed on the model's `exec`; the run loop itself is tied by C01
 oracles:        results identical (same error, or same kind/type/shape/mask and values within 1e-9) across permutations of the file, with/without
-                metadata, with/without extra consumers of intermediate results; no element-type/kind error arises in a well-typed model
+                metadata, with/without extra consumers of intermediate results; no element-type/kind error arises in a well-typed model;
+                wide fan-in (33-300 fields, partly missing cells) for every list command against the cell-wise definitions; fields of user-defined
+                commands in unusual element types (bool, narrow/unsigned, half/single, big-endian) with 1-3 consumers in every file order; the
+                table a path denotes for the operating system (links, link/.., second names, such working directories)
 """
 import contextlib
 import io
@@ -230,6 +233,247 @@ def directed_listings(ctx, tmp):
                 ctx.fail("%s: another listing of the same inputs changes results: %s" % (cmd, d), {"source": ref_src, "relisted": src})
                 break
 
+NARY = ["Sum", "Multiply", "Minimum", "Maximum", "Mean", "WeightedSum", "WeightedMean", "FuzzyOr", "FuzzyAnd", "FuzzyUnion", "FuzzyWeightedUnion", "FuzzyXOr",
+        "FuzzySelectedUnion", "FuzzySelectedUnion"]
+
+
+def wide_models(ctx, tmp, classes, lines, metas):
+    """fan-in varied upwards: every command that takes a list of fields, over 33 ... 300 fields of one table (integer and decimal columns; one row complete, one
+    with a single missing cell, one with two, one missing in every other column, one missing everywhere), written in dependency order and consumers first.
+    Every execute call joins the replay against the model and the cell-wise definitions (a cell is missing as soon as it is missing in any input)"""
+    rows = 6
+    for n in [33, 64, 130, 300] + ([1100] if ctx.thorough else []):
+        cols, MISS = [], -99
+        for j in range(n):
+            integer = j % 5 == 0
+            vals = [((j * 7 + i * 3) % 3 - 1) if integer else ((j * 7 + i * 3) % 9 - 4) / 4.0 for i in range(rows)]
+            if j == 1:
+                vals[1] = MISS
+            if j in (3, n - 1):
+                vals[2] = MISS
+            if j % 2 == 1:
+                vals[3] = MISS
+            vals[4] = MISS
+            cols.append(("w%d" % j, integer, vals, MISS))
+        path = "wide%d.csv" % n
+        with open(os.path.join(tmp, path), "w") as f:
+            f.write(",".join(c[0] for c in cols) + "\n")
+            for i in range(rows):
+                f.write(",".join(repr(c[2][i]) for c in cols) + "\n")
+        reads, fz = [], []
+        for name, integer, vals, missing in cols:
+            reads.append(("R_" + name, "EEMSRead", [("InFileName", path), ("InFieldName", name), ("MissingVal", MISS)] + ([("DataType", "Integer")] if integer else [])))
+            fz.append(("F_" + name, "CvtToFuzzy", [("InFieldName", Name("R_" + name)), ("TrueThreshold", 1), ("FalseThreshold", -1)]))
+        rn, fn = [Name(r[0]) for r in reads], [Name(r[0]) for r in fz]
+        weights = [[1, 0.5, 2, 0.25][j % 4] for j in range(n)]
+        wide = []
+        for k, cmd in enumerate(NARY):
+            args = [("InFieldNames", fn if cmd in eems.FUZZY_CONSUMERS else rn)]
+            if "Weight" in cmd:
+                args.append(("Weights", weights))
+            if cmd == "FuzzySelectedUnion":
+                args += [("TruestOrFalsest", "Truest" if k % 2 else "Falsest"), ("NumberToConsider", n // 3 if k % 2 else n)]
+            wide.append(("%s_%d" % (cmd[:9], k), cmd, args))
+        names = [c[0] for c in reads + fz + wide]
+        ref = None
+        for order in (reads + fz + wide, wide[::-1] + fz[::-1] + reads):
+            sc = Scenario(order, wd=tmp, libs=LIBS)
+            rec = Recording()
+            out = run_real(sc.source, tmp, classes, rec)
+            ctx.case("wide %d %s" % (n, order is not reads), sample={"fields": n, "commands": len(order), "outcome": out["status"]})
+            ctx.count("wide_fan_in_models")
+            desc = {"source": "%d EEMSRead of the columns of %s (marker %d), each made fuzzy by CvtToFuzzy(TrueThreshold = 1, FalseThreshold = -1), and over all %d of them:\n%s" % (
+                n, path, MISS, n, "\n".join("%s = %s(%s)" % (r, c, ", ".join("%s = %s" % (a, "[... all %d ...]" % n if isinstance(v, list) else v) for a, v in args)) for r, c, args in wide)),
+                "table": "column w_j, row i: (j*7 + i*3) %% 9 - 4 quarters (every fifth column: integers (j*7 + i*3) %% 3 - 1); missing: row 1 of w1; row 2 of w3 and w%d; row 3 of every odd column; row 4 everywhere" % (n - 1),
+                "consumers_first": order is not reads}
+            if out["status"] != "ok":
+                ctx.fail("a well-typed model over %d fields fails: %s" % (n, out["status"]), desc)
+                continue
+            check_reads(ctx, rec, order, cols, desc)
+            for cname, rname, params, ins, (st, res) in rec.calls:
+                if cname not in NARY:
+                    continue
+                ctx.count("wide_fan_in_calls")
+                # said directly (the replay below says the same through the reference definitions): missing exactly where an input is missing
+                want_mask = numpy.zeros(rows, dtype=bool)
+                for a in ins:
+                    want_mask |= numpy.ma.getmaskarray(a)
+                if st == "ok" and isinstance(res, numpy.ndarray) and numpy.ma.getmaskarray(res).tolist() != want_mask.tolist():
+                    ctx.fail("%s over %d fields: missing cells %r; a cell is missing in some input exactly at %r" % (cname, len(ins), numpy.ma.getmaskarray(res).astype(int).tolist(), want_mask.astype(int).tolist()),
+                             dict(desc, command=rname, result=repr(res)))
+                case = eems.Case(cname, params, ins)
+                try:
+                    line = case.line()
+                except (common.NonFinite, ValueError, OverflowError):
+                    ctx.count("skipped_non_finite_input")
+                    continue
+                lines.append(line)
+                metas.append((case, st, res, desc, rname))
+            if ref is None:
+                ref = out
+            else:
+                d = same_run(ref, out, names)
+                if d:
+                    ctx.fail("a model over %d fields: results depend on the order of the commands in the file: %s" % (n, d), desc)
+
+
+PLUGINS = "mpverif_c02_plugins"
+PLUGINS_SRC = """
+import numpy
+from mpilot import params
+from mpilot.commands import Command
+
+
+class IsAbove(Command):
+    \"\"\" true where the field exceeds the threshold: a mask-like field, as comparisons deliver it \"\"\"
+    inputs = {"InFieldName": params.ResultParameter(params.DataParameter(), is_fuzzy=False), "Threshold": params.NumberParameter()}
+    output = params.DataParameter()
+
+    def execute(self, **kw):
+        return kw["InFieldName"].result > kw["Threshold"]
+
+
+class AsType(Command):
+    \"\"\" the field held in another element type (what a reader of another file format, or a classification, delivers) \"\"\"
+    inputs = {"InFieldName": params.ResultParameter(params.DataParameter(), is_fuzzy=False), "Type": params.StringParameter()}
+    output = params.DataParameter()
+
+    def execute(self, **kw):
+        arr = kw["InFieldName"].result
+        return numpy.ma.array(numpy.ma.getdata(arr.filled(0)).astype(kw["Type"]), mask=numpy.ma.getmaskarray(arr).copy())
+"""
+
+
+def plugin_models(ctx, tmp):
+    """"any data result may feed any data input": fields delivered by user-defined commands in the element types numpy users meet - booleans from a comparison, narrow and
+    unsigned integers, half / single precision, big-endian numbers - consumed by one, two and three built-in commands (directly and through a list), in every order
+    of the file: every order runs, and every result is the hand-computed one"""
+    import itertools, sys, types
+    if PLUGINS not in sys.modules:
+        m = types.ModuleType(PLUGINS)
+        sys.modules[PLUGINS] = m
+        exec(compile(PLUGINS_SRC, PLUGINS, "exec"), m.__dict__)
+    libs = LIBS + (PLUGINS,)
+    rng = ctx.rng
+    x = [1.0, 5.0, 3.0, 8.0, -99.0, 2.0]
+    with open(os.path.join(tmp, "plug.csv"), "w") as f:
+        f.write("x\n" + "\n".join(repr(v) for v in x) + "\n")
+    mask = [v == -99.0 for v in x]
+    xs = numpy.array(x)
+    read = 'X = EEMSRead(InFileName = "plug.csv", InFieldName = x, MissingVal = -99)'
+    producers_ = [("P = IsAbove(InFieldName = X, Threshold = 2.5)", (xs > 2.5).astype(float), "bool")]
+    for t in ("bool", "int8", "uint8", "int16", "uint32", "float16", "float32", ">f8", ">i4"):
+        producers_.append(('P = AsType(InFieldName = X, Type = "%s")' % t, (xs != 0).astype(float) if t == "bool" else xs, t))
+    for ptext, pv, tname in producers_:
+        consumers = {"C1": ("C1 = Copy(InFieldName = P)", pv), "C2": ("C2 = AMinusB(A = X, B = P)", xs - pv), "C3": ("C3 = Multiply(InFieldNames = [P, X])", pv * xs),
+                     "C4": ("C4 = Mean(InFieldNames = [X, P])", (xs + pv) / 2), "C5": ("C5 = Maximum(InFieldNames = [P, X])", numpy.maximum(pv, xs)),
+                     "C6": ("C6 = WeightedSum(InFieldNames = [P, X], Weights = [2, 0.5])", 2 * pv + 0.5 * xs)}
+        sets = [(c,) for c in sorted(consumers)] + [("C1", "C2"), ("C1", "C3"), ("C2", "C4"), ("C3", "C6"), ("C5", "C1")] + [tuple(rng.sample(sorted(consumers), 3))]
+        for cs in sets:
+            blocks = [read, ptext] + [consumers[c][0] for c in cs]
+            orders = list(itertools.permutations(blocks))
+            if len(orders) > 24:
+                orders = [orders[0], orders[-1]] + rng.sample(orders[1:-1], 22)
+            for order in orders:
+                src = "\n".join(order) + "\n"
+                out = run_real(src, tmp, libs=libs)
+                ctx.case("plugin " + src, sample={"source": src, "outcome": out["status"]})
+                ctx.count("plugin_field_models")
+                desc = {"source": src, "libraries": list(libs), "plug-in library": PLUGINS_SRC, "table plug.csv": "x = %r, marker -99" % x, "element_type_of_P": tname}
+                if out["status"] != "ok":
+                    ctx.fail("a well-typed model in which a user-defined command delivers a field of element type %s, consumed by %d built-in command(s), is refused in this order of its commands: %s %s" % (
+                        tname, len(cs), out["status"], " ".join(str(out.get("exc")).split())[:160]), desc)
+                    break
+                bad = None
+                for c in ("P",) + cs:
+                    want = pv if c == "P" else consumers[c][1]
+                    got = out["results"].get(c)
+                    if got is None or got[3] is None or len(got[3]) != len(x):
+                        bad = "%s = %r" % (c, got)
+                    elif [g is None for g in got[3]] != mask:
+                        bad = "%s: missing cells %r, the table's are %r" % (c, [g is None for g in got[3]], mask)
+                    elif any(g is not None and abs(float(g) - float(w)) > 1e-9 for g, w in zip(got[3], want)):
+                        bad = "%s = %r, by hand %r" % (c, got[3], [None if m_ else float(w) for w, m_ in zip(want, mask)])
+                    if bad:
+                        break
+                if bad:
+                    ctx.fail("a model in which a user-defined command delivers a field of element type %s: %s" % (tname, bad), desc)
+                    break
+
+
+def path_spellings(ctx, tmp):
+    """the input data of a model is the file its path denotes for the operating system (relative paths from the working directory): plain names, ./, a folder and back
+    (sub/..), doubled separators, a symbolic link to a folder, through the link and back up (which leads to the parent of the link's TARGET), a link to the file, a second
+    name of the file (hard link), absolute spellings, working directories that are such paths themselves - with tables of the same name and other numbers next to every
+    place a lexical short-cut would look.  Every result is the evaluation on the table the spelling denotes; an output written through such a path is found there"""
+    root = os.path.realpath(os.path.join(tmp, "paths"))
+    project, shared = os.path.join(root, "project"), os.path.join(root, "shared", "2026")
+    os.makedirs(os.path.join(project, "sub", "deeper"))
+    os.makedirs(os.path.join(shared, "tables"))
+    tables = {"A": ([90.0, 80.0, 70.0], [9.0, 9.0, 9.0]), "B": ([10.0, 20.0, 30.0, 40.0], [1.0, 2.0, 3.0, 4.0]), "C": ([11.0, 21.0, 31.0, 41.0], [5.0, 6.0, 7.0, 8.0]),
+              "D": ([0.5, 1.5], [2.0, 4.0]), "E": ([7.0, 7.5, 8.0], [1.0, 0.0, -1.0])}
+    where = {"A": os.path.join(project, "data.csv"), "B": os.path.join(shared, "data.csv"), "C": os.path.join(shared, "tables", "data.csv"), "D": os.path.join(project, "sub", "data.csv"),
+             "E": os.path.join(root, "data.csv")}
+    for k, pth in where.items():
+        with open(pth, "w") as f:
+            f.write("elev,slope\n" + "".join("%r,%r\n" % (e, s_) for e, s_ in zip(*tables[k])))
+    try:
+        os.symlink(os.path.join(shared, "tables"), os.path.join(project, "inputs"))            # a folder elsewhere
+        os.symlink(os.path.join("..", "shared", "2026", "data.csv"), os.path.join(project, "alias.csv"))      # the file itself, relative link
+        os.symlink(os.path.join(project, "sub", "deeper"), os.path.join(shared, "back"))       # from the data set back into the project
+        os.link(where["A"], os.path.join(project, "same.csv"))
+    except (OSError, NotImplementedError, AttributeError):
+        ctx.count("path_spellings_skipped_no_links")
+        return
+    rel = [("data.csv", "A"), ("./data.csv", "A"), ("sub/../data.csv", "A"), ("sub/data.csv", "D"), ("sub/./data.csv", "D"), ("sub//data.csv", "D"), ("sub/deeper/../data.csv", "D"),
+           ("sub/deeper/../../data.csv", "A"), ("inputs/data.csv", "C"), ("inputs/./data.csv", "C"), ("inputs/../data.csv", "B"), ("inputs/../tables/data.csv", "C"),
+           ("inputs/../../2026/data.csv", "B"), ("./inputs/../data.csv", "B"), ("sub/../inputs/../data.csv", "B"), ("alias.csv", "B"), ("same.csv", "A"), ("../project/data.csv", "A"),
+           ("../data.csv", "E"), ("../shared/2026/tables/../data.csv", "B"), ("../shared/2026/back/../data.csv", "D"), ("../shared/2026/back/../../data.csv", "A"),
+           ("inputs/../back/../data.csv", "D")]
+    cases = [(project, sp, k) for sp, k in rel]
+    cases += [(project, os.path.join(project, sp), k) for sp, k in rel[::3]] + [(None, os.path.join(project, sp), k) for sp, k in rel[1::4]]
+    # the working directory itself given through a link and back, or with a folder and back
+    cases += [(os.path.join(project, "inputs", ".."), "data.csv", "B"), (os.path.join(project, "inputs", ".."), "tables/data.csv", "C"), (os.path.join(project, "sub", ".."), "data.csv", "A"),
+              (os.path.join(project, "inputs"), "../data.csv", "B"), (os.path.join(project, "inputs") + os.sep, "data.csv", "C"), (os.path.join(shared, "back"), "../data.csv", "D")]
+    from mpilot.program import Program
+    for i, (wd, sp, k) in enumerate(cases):
+        full = sp if wd is None else os.path.join(wd, sp)
+        if not os.path.samefile(full, where[k]):
+            ctx.count("path_spellings_skipped_unexpected_file_system")        # (the harness' own table of what denotes what does not hold here)
+            continue
+        outsp = os.path.join(os.path.dirname(sp), "written_%d.csv" % i)
+        src = ('total = Sum(InFieldNames = [elev, slope])\nelev = EEMSRead(InFileName = "%s", InFieldName = elev)\nslope = EEMSRead(InFileName = "%s", InFieldName = slope)\n'
+               'Out = EEMSWrite(OutFileName = "%s", OutFieldNames = [total])\n' % (sp, sp, outsp))
+        out = run_real(src, wd)
+        ctx.case("path-spelling %s %s" % (wd, sp), sample={"working_dir": wd, "path": sp, "outcome": out["status"]})
+        ctx.count("path_spelling_models")
+        e, s_ = tables[k]
+        desc = {"source": src, "working_dir": wd, "denotes": os.path.relpath(os.path.realpath(full), root),
+                "layout": "project/{data.csv, same.csv (second name of data.csv), sub/data.csv, sub/deeper/, inputs -> shared/2026/tables, alias.csv -> ../shared/2026/data.csv}, shared/2026/{data.csv, tables/data.csv, back -> project/sub/deeper}, data.csv; "
+                          "every data.csv holds other numbers",
+                "table_it_denotes": {"elev": e, "slope": s_}}
+        if out["status"] != "ok":
+            ctx.fail("a model reading %r (working directory %s) - an existing table, %s - fails: %s %s" % (sp, wd, desc["denotes"], out["status"], " ".join(str(out.get("exc")).split())[:200]), desc)
+            continue
+        for name, want in (("elev", e), ("slope", s_), ("total", [a + b for a, b in zip(e, s_)])):
+            got = out["results"].get(name)
+            if got is None or got[3] != want:
+                ctx.fail("a model reading %r (working directory %s): %s = %r; the table this path denotes (%s) gives %r" % (sp, wd, name, got and got[3], desc["denotes"], want), desc)
+                break
+        else:
+            outfull = outsp if wd is None else os.path.join(wd, outsp)
+            try:
+                text = open(outfull).read()
+            except (IOError, OSError):
+                text = None
+            if text is None:
+                elsewhere = [os.path.relpath(os.path.join(d, f_), root) for d, _, fs in os.walk(root) for f_ in fs if f_ == "written_%d.csv" % i]
+                ctx.fail("a model writing to %r (working directory %s): no such file afterwards (a file of that name appeared at %r)" % (outsp, wd, elsewhere), desc)
+            elif [l for l in text.replace("\r", "").split("\n")[1:] if l] != [repr(a + b) for a, b in zip(e, s_)] and \
+                    [float(l) for l in text.replace("\r", "").split("\n")[1:] if l] != [a + b for a, b in zip(e, s_)]:
+                ctx.fail("a model writing to %r: the file holds %r" % (outsp, text[:200]), desc)
+
+
 class Recording(object):
     def __init__(self):
         self.calls = []
@@ -286,7 +530,7 @@ def recorded(classes, rec):
             c.execute = o
 
 
-def run_real(source, tmp, classes=None, rec=None, fault=None):
+def run_real(source, tmp, classes=None, rec=None, fault=None, libs=None):
     """fault = (path of a table, text to put there for the first run): the first run() meets a broken table and fails; the table is restored and
     the SAME Program is run again"""
     from mpilot.program import Program
@@ -297,7 +541,7 @@ def run_real(source, tmp, classes=None, rec=None, fault=None):
         warnings.simplefilter("ignore")
         old = numpy.seterr(all="ignore")
         try:
-            p = Program.from_source(source, libraries=LIBS, working_dir=tmp)
+            p = Program.from_source(source, libraries=libs or LIBS, working_dir=tmp)
             if fault is not None:
                 good = open(fault[0]).read()
                 try:
@@ -511,6 +755,9 @@ def run(ctx):
     deep_chain(ctx, tmp)
     directed_models(ctx, tmp)
     directed_listings(ctx, tmp)
+    wide_models(ctx, tmp, classes, lines, metas)
+    plugin_models(ctx, tmp)
+    path_spellings(ctx, tmp)
     answers = model.ask(lines)
     # independent reference definitions (exact arithmetic, written without looking at the model): they decide, on the implementation, whether a
     # command's result inside a running program equals the mathematical evaluation of its inputs
